@@ -591,7 +591,12 @@ def oracle(ops, out):
             return "decoded text depends on the previous contents of the caller's buffer"
         if d["de_ret"] > sl:
             return "deserialize returned %d > str_len %d" % (d["de_ret"], sl)
-        if d["de_ret"] != len(d["text"]) + 1:
+        # the return value counts the text and its NUL; a %c conversion may legitimately put a NUL byte INTO the
+        # text (argument 0, or whatever a malformed record holds there): the C string then ends earlier than the
+        # decoded text, so with a 'c' anywhere in the format only ">=" can be demanded
+        f = info.get("fmt")          # decode-only cases (arbitrary record bytes) have no format of their own
+        may_nul = True if f is None else (0x63 in bytes(f))
+        if (d["de_ret"] < len(d["text"]) + 1) if may_nul else (d["de_ret"] != len(d["text"]) + 1):
             return "deserialize returned %d but the string has %d bytes" % (d["de_ret"], len(d["text"]))
     if info["op"] == "rt" and not info["noref"] and "ref" in d:
         fits_rec = d["ser_ret"] < info["maxlen"]
